@@ -903,3 +903,75 @@ Proof.
   - left. apply Ovl_window. exact Hw.
   - right. destruct Hv as [[A B C D] _ _ _ _]. repeat split; assumption.
 Qed.
+
+(* ---------- no deadlock, in general ---------- *)
+Lemma Forall2_nth_r : forall {A B} (P : A -> B -> Prop) l1 l2 i b, Forall2 P l1 l2 -> nth_error l2 i = Some b ->
+  exists a, nth_error l1 i = Some a /\ P a b.
+Proof.
+  intros A B P l1 l2 i b F. revert i. induction F as [|x y l l' Hxy F IHF]; intros i Hn; destruct i; simpl in *; try discriminate.
+  - inversion Hn; subst. eexists; split; [reflexivity | assumption].
+  - apply IHF. exact Hn.
+Qed.
+Lemma exec_total : forall w i c, (forall k, c <> CLock k) -> exec w i c <> None.
+Proof. intros w i c H. destruct c; cbn; try discriminate. exfalso. exact (H k eq_refl). Qed.
+Lemma holder_lock_free : forall c k, holds c k -> exists call, call_of c = Some call /\ forall k', call <> CLock k'.
+Proof.
+  destruct c; cbn; intros k H; try contradiction; try (destruct lk; [|contradiction]);
+    eexists; (split; [reflexivity | intros k'; discriminate]).
+Qed.
+Lemma enabled_in : forall w ts i t s, nth_error ts i = Some t -> step_thread w i t = Some s -> enabled_steps w ts <> [].
+Proof.
+  intros w ts i t s Hn Hs E.
+  assert (X : In (i, s) (enabled_steps w ts)).
+  { unfold enabled_steps. apply in_flat_map. exists i. split.
+    - apply in_seq. split; [lia|]. simpl. apply nth_error_Some. congruence.
+    - rewrite Hn, Hs. left. reflexivity. }
+  rewrite E in X. exact X.
+Qed.
+Lemma astep_enabled : forall w ts pcs i c, Forall2 R ts pcs -> nth_error pcs i = Some c -> astep w i c <> None ->
+  enabled_steps w ts <> [].
+Proof.
+  intros w ts pcs i c F Hi Ha. destruct (Forall2_nth_r _ _ _ _ _ F Hi) as [t [Ht Rt]].
+  pose proof (step_refines w i t c Rt) as S. destruct (step_thread w i t) as [s|] eqn:E; [|contradiction].
+  eapply enabled_in; eauto.
+Qed.
+
+Lemma inv_progress : forall w ts pcs tr, Forall2 R ts pcs -> Inv w pcs tr ->
+  forallb finished ts = true \/ enabled_steps w ts <> [].
+Proof.
+  intros w ts pcs tr F V. destruct (forallb finished ts) eqn:Ef; [left; reflexivity | right].
+  assert (X : exists i t, nth_error ts i = Some t /\ finished t = false).
+  { clear F V. induction ts as [|t ts IH]; [discriminate|]. cbn [forallb] in Ef. destruct (finished t) eqn:E.
+    - destruct (IH Ef) as [i [t' [H1 H2]]]. exists (S i), t'. split; assumption.
+    - exists 0, t. split; [reflexivity | exact E]. }
+  destruct X as [i [t [Ht Hf]]]. destruct (Forall2_nth _ _ _ _ _ F Ht) as [c [Hc [Hp _]]].
+  destruct (astep w i c) as [s|] eqn:Ea; [eapply astep_enabled; eauto; congruence|].
+  (* the thread waits for a lock; its holder can move *)
+  unfold astep in Ea. destruct (call_of c) as [call|] eqn:Ec.
+  - destruct (exec w i call) as [[w1 r]|] eqn:Ee; [discriminate|].
+    assert (L : exists k, call = CLock k).
+    { destruct call; cbn in Ee; try discriminate. exists k. reflexivity. }
+    destruct L as [k ->]. cbn in Ee. destruct (holder w k) as [j|] eqn:Hh; [|discriminate].
+    unfold holder in Hh. destruct (find (fun x => String.eqb (fst x) k) (held w)) as [[k' j']|] eqn:Hfind; [|discriminate].
+    cbn in Hh. inversion Hh; subst j'. apply find_some in Hfind. destruct Hfind as [Hin Hk]. cbn in Hk.
+    apply String.eqb_eq in Hk. subst k'.
+    apply (i_held _ _ (v_lock _ _ _ V)) in Hin. destruct Hin as [cj [Hj Hh2]].
+    destruct (holder_lock_free _ _ Hh2) as [cl [Hcl Hnl]].
+    eapply (astep_enabled w ts pcs j cj); eauto. unfold astep. rewrite Hcl.
+    pose proof (exec_total w j cl Hnl) as T. destruct (exec w j cl) as [[w2 r2]|]; [discriminate | contradiction].
+  - exfalso. destruct c; cbn in Ec; try discriminate. unfold finished in Hf. rewrite Hp in Hf. cbn in Hf. discriminate.
+Qed.
+
+(* no reachable state is a deadlock (unless the overlap has happened, after
+   which nothing is claimed) *)
+Theorem podnode_no_deadlock : forall w ops sched w' ts' tr,
+  ref_ok w = true -> NoDup (node_names w) -> held w = [] ->
+  run_sched w (mk_threads (map (fun o => (rop_of o, None)) ops)) sched [] = (w', ts', tr) ->
+  window_addnode_removepod tr = true \/ forallb finished ts' = true \/ enabled_steps w' ts' <> [].
+Proof.
+  intros w ops sched w' ts' tr Hr Hnd Hh Hrun.
+  destruct (run_sched_J sched w _ [] (map pc0 ops) w' ts' tr (threads_R ops)
+              (or_intror (inv_init w ops Hr Hnd Hh)) Hrun) as [pcs' [F [Hw|Hv]]].
+  - left. apply Ovl_window. exact Hw.
+  - right. eapply inv_progress; eauto.
+Qed.
